@@ -343,4 +343,27 @@ theorem edited_in_place_keeps_comments (R : AD.Rg) (ty : String) (k : Nat) (isn 
 example : AD.sameNodeB true AD.kPtr "@7" [.mk "ast.Ident" 3 false 0 0 [] false "" false []]
     (.mk "*ast.Ident" 0 true 9 10 [] false "@7" false [.mk "ast.Ident" 3 false 0 0 [] false "" false []]) = true := by decide
 
+/-- **The comments above the package clause survive the filter.** When every interval `ChangedIntervals` returns starts
+at `NoPos` - such an interval the filter skips: the phantom region astdiff reports for the comment groups an earlier change
+removed starts there - or at or after the `package` keyword (evaluated by the driver on the intervals of every real step),
+no comment that ends at or before the keyword is dropped: copyright, build constraints and the package's doc comment stay. -/
+theorem header_comments_survive_the_filter (hi : Nat) (ivs : List Iv) (cs : List Comment) (c : Comment)
+    (hmem : c ∈ cs) (hc : c.pos < c.stop) (hh : c.stop ≤ hi) (h : startsClearB hi ivs = true) :
+    c ∈ filterComments ivs cs := by
+  unfold filterComments
+  rw [List.mem_filter]
+  refine ⟨hmem, ?_⟩
+  simp only [Bool.not_eq_true', dropped, List.any_eq_false]
+  intro i hi'
+  have hs := (List.all_eq_true.1 h) i hi'
+  simp only [Bool.or_eq_true, beq_iff_eq, decide_eq_true_eq] at hs
+  simp only [inside, Bool.and_eq_true, bne_iff_ne, ne_eq, decide_eq_true_eq, not_and]
+  intro h0 h1
+  rcases hs with hs | hs
+  · exact absurd hs h0.1
+  · have := h0.2; omega
+
+/-- non-vacuity: a phantom interval from NoPos and a real one after the package clause at 40 -/
+example : startsClearB 40 [⟨0, 332⟩, ⟨349, 360⟩] = true := by decide
+
 end Gopatch.C17
